@@ -81,14 +81,15 @@ Theorem selector_selects_matching_spans : forall re_match parse_float hash64 cte
 Proof. exact selector_correct. Qed.
 Print Assumptions selector_selects_matching_spans.
 
-(* 6. Literals: the meaning with the literals as printed into the statement (%f, six decimals) is the meaning
-   with the exact literals whenever every literal survives %f (lits_exact; finding float-literal-6-decimals
-   is exactly the complement). *)
-Theorem rounding_is_the_only_gap : forall re_match parse_float (e : attr_exp) rows,
+(* 6. Literals: a numeric literal means, inside the statement, the number its printed text parses back to; that is
+   the meaning of the script itself whenever the printed text parses back to exactly the query's number
+   (lits_exact).  Since 57651aa sql.FloatVal prints strconv.FormatFloat(v,'f',-1,64); the model mirrors it for
+   at most 15 significant digits (Examples literal_survives) and lits_exact is checked on every generated query. *)
+Theorem literal_text_is_exact : forall re_match parse_float (e : attr_exp) rows,
   lits_exact e = true ->
   exp_sem re_match parse_float true e rows = exp_sem re_match parse_float false e rows.
 Proof. intros. now apply exp_sem_round. Qed.
-Print Assumptions rounding_is_the_only_gap.
+Print Assumptions literal_text_is_exact.
 
 (* 7. Well-formedness: every statement that Plan / PlanTagsV2 / PlanValuesV2 followed by Process build --
    for every script (selectors, chains, aggregators, {} forms), mode, context with named tables, and call --
